@@ -345,6 +345,9 @@ class Ev:
     def class_attr(self, ci, attr):
         import copy
         for c_ in self.repo.mro(ci):
+            if ("class", c_.name, attr) in self.gstate:
+                return self.gstate[("class", c_.name, attr)]
+        for c_ in self.repo.mro(ci):
             ce = self.class_env(c_)
             if ce is None:
                 if attr in c_.attrs or attr in c_.methods:
@@ -427,6 +430,9 @@ class Ev:
             return base.attrs[n.attr]
         if isinstance(base, Opaque) and "%s.%s" % (base.text, n.attr) in self.hooks:
             return Opaque("%s.%s" % (base.text, n.attr))        # bound method of a hooked object, taken as a value
+        if isinstance(base, Opaque) and getattr(base, "ci", None) is not None and n.attr.upper() == n.attr:
+            # an oracle object known to be of a toolkit class: its class-level CONSTANTS are the class's
+            return self._mk(base.ci.mod, {}, base.ci, self.depth + 1).class_attr(base.ci, n.attr)
         raise Unknown(key)
 
     def ev_BinOp(self, n):
@@ -577,6 +583,13 @@ class Ev:
             for t, x in zip(target.elts, v):
                 self._bind(t, x, env)
         elif isinstance(target, ast.Attribute):
+            if isinstance(target.value, ast.Name) and target.value.id not in env and target.value.id not in ("self", "cls"):
+                r_ = self.repo.lookup(self.mod, target.value.id)
+                if r_ is not None and r_[0] == "class":
+                    # a store through the class name: class-level state, seen by every object of the session
+                    c_, _v = self.repo.find_attr(r_[1], target.attr)
+                    self.gstate[("class", (c_ or r_[1]).name, target.attr)] = v
+                    return
             env[ast.unparse(target)] = v
         else:
             raise Unknown("bind target")
@@ -1099,7 +1112,7 @@ class Ev:
                         and t.attr in self.env[t.value.id]:
                     self.env[t.value.id][t.attr] = v          # dict-shaped object: the attribute lives in the object
                 elif isinstance(t, ast.Attribute):
-                    self.env[ast.unparse(t)] = v
+                    self._bind(t, v, self.env)
                 elif isinstance(t, ast.Subscript):
                     base = self.ev(t.value)
                     if not isinstance(base, (dict, list, bytearray)):
